@@ -294,6 +294,7 @@ static void build_groups(void)
         add_group(F_POINT, b, -1, V_NAMED, M_RANGE, 0, Q_NPT);
         add_group(F_POINT, b, -1, V_TRUNC, M_RANGE, 0, 2 * EK[j].size + 1);
         add_group(F_POS, b, -1, V_ECDH, M_RANGE, 0, 4);
+        add_group(F_POS, b, -1, V_ALGMIX, M_RANGE, 0, 3);
         add_group(F_BLOB, b, -1, V_TRUNC, M_RANGE, 0, EK[j].derlen + 1);
     }
 #ifdef USE_DH
@@ -328,7 +329,7 @@ static void build_groups(void)
         }
         add_group(F_ECDSA, b, h, V_DER, M_RANGE, 0, D_NDER);
         add_group(F_ECDSA, b, h, V_MSG, M_RANGE, 0, HI[h].len);
-        add_group(F_ECDSA, b, h, V_NAMED, M_RANGE, 0, 1);
+        add_group(F_ECDSA, b, h, V_NAMED, M_RANGE, 0, 3);
         add_group(F_ECDSA, b, h, V_TRUNC, M_RANGE, 0, 80);
         add_group(F_ECDSA, b, h, V_TRUNC, M_RANGE, 80, 160);
         add_group(F_POS, b, h, V_ECSIGN, M_RANGE, 0, 6);
